@@ -72,7 +72,7 @@ _ss_memo = {}
 
 
 def strip_sites(t):
-    if not isinstance(t, tuple):
+    if not isinstance(t, tuple) or not t:
         return t
     r = _ss_memo.get(t)
     if r is not None:
